@@ -1,7 +1,7 @@
 (* C02 — programs with a cycle through negation are rejected, never answered.
    Semantic side.  Only statements; proofs in Sem/StratProofs.v. *)
 From Coq Require Import NArith QArith List Bool.
-From PL.Sem Require Import Program Sem SemBasics StratProofs.
+From PL.Sem Require Import Program Sem SemBasics StratProofs FuelProofs.
 Import ListNotations.
 
 (* If the ground dependency graph has no cycle through negation, the well-founded model of EVERY
@@ -43,8 +43,13 @@ Theorem C02_level_mapping_two_valued : forall lvl rules U T Uk,
 Proof. exact (stratified_two_valued gatom gatom_eqb gatom_eqb_spec). Qed.
 Print Assumptions C02_level_mapping_two_valued.
 
-(* NOT proved: (1) that the fuel 2+|U| always suffices (the iterations test convergence and return an
-   explicit OutOfFuel otherwise; the oracle reports it and the check treats it as broken machinery);
+(* The well-founded model always exists: the alternating fixpoint converges within its fuel (2 + |U|),
+   so the hypotheses `wfm .. = Some m` above are never vacuous. *)
+Theorem C02_wfm_total : forall rules U, wfm gatom gatom_eqb rules U <> None.
+Proof. exact (wfm_total gatom gatom_eqb gatom_eqb_spec). Qed.
+Print Assumptions C02_wfm_total.
+
+(* NOT proved: (1) fuel sufficiency of the graph closure `reach` (explicit None otherwise; never observed);
    (2) C02_answer_is_C01 : must_answer P -> infer_m P q = Sem.prob P q  (needs the pipeline model of C01);
    (3) SemFast.fast_classify = Sem.classify (tied by the differential self-check of the C02 run). *)
 
